@@ -87,8 +87,9 @@ Print Assumptions C14_x86_mul_to_spill_latent_refuted.
        every program: tag guard / name-digits / noguard) cannot be dropped: C14_compile_labels_unique_refuted.
        This is the known finding label-collision-name-digits (witnesses corpus/c14/, harness/src/c14probe.rs).
    (e) jump-table stride for AArch64 (`B l`) and RISC-V (`JAL X0 l`): entry k at jump_length k bytes.
-   CHECKED, not proved, for AArch64 / RISC-V: encodability of immediates, offsets, shifts and register
-   classes (Sem/A64Wf.v, Sem/RVWf.v: asm_wf on the implementation's output, steps wf-a64 / wf-rv). *)
+   CHECKED, not proved in round 2, for AArch64 / RISC-V: encodability of immediates, offsets, shifts and register
+   classes (Sem/A64Wf.v, Sem/RVWf.v: asm_wf on the implementation's output, steps wf-a64 / wf-rv); PROVED in round 4
+   (end of this file: C14_a64_compile_asm_wf, C14_rv_compile_asm_wf). *)
 
 Theorem C14_label_texts_not_injective :
   pr (GCL "Aa" 18 "Bx_19_Cy") = pr (GCL "Aa_18_Bx" 19 "Cy") /\ pr (GCL "Aa" 18 "Bx_19") = pr (GTL "Aa_18_Bx" 19).
@@ -340,3 +341,205 @@ Theorem C14_x86_compile_asm_wf_lin_needed :
     In (IMULMR STACK (stack_offset 2) TEMP) cs.
 Proof. exact asm_wf_lin_check_needed. Qed.
 Print Assumptions C14_x86_compile_asm_wf_lin_needed.
+
+(* ======================= round 4: asm_wf and code_small as THEOREMS for AArch64 =======================
+   PROVED now (Sem/WfGuard64.v, Proof/CodegenForallLinP.v, Proof/A64WfAll.v, Proof/A64WfProg.v, Proof/A64WfCor.v):
+   (j) EVERY instruction the AArch64 code generator and the routine wrapper emit passes the checker Sem/A64Wf.asm_wf
+       that the run-time check applies to the real output: labels defined once, every referenced label defined (and
+       not a '#'-mark), the entry symbol defined, BL only to the two print routines and no label equal to one, every
+       operand encodable in its instruction form - register classes (Xn, n <= 29), ADD/SUB/CMP immediates (12 bits,
+       optionally LSL 12), MOVZ/MOVN/MOVK chunks and shifts, LDR/STR scaled offsets (spill slots 0..2040, field
+       offsets 16..72, the caller-save bracket of print), LDP/STP of prologue / epilogue -, and every branch target
+       within the reach of its form (B.cond / ADR +-1 MiB: the routine is shorter).
+       Hypotheses, all boolean on the PROGRAM: labels_guard, lin_check_prog (gives calls_guard), plain names / types,
+       imm_guard_a64 (a type declares at most 1024 xtors: `ADD Xt, Xt, #4k`),
+       reach_guard_a64 (28 + cg_fine_defs 14 74 < 262143 instructions: a two-weight refinement of the size theorem
+       of C19, Proof/SizeCodegenFine.v, SizeA64Fine.v).  No hypothesis on
+       literals: every 64-bit pattern is synthesised from half-words.  No hypothesis on the size of a Substitute: the
+       increment of a reference count is below 4096 because every copy of a variable has its own temporary.
+       The xtor bound is a REAL limit (finding): C14_a64_compile_asm_wf_xtors_needed and docs/C14.md; so is the reach
+       (a conditional over more than 1 MiB of code: docs/C14.md), which the guard over-approximates.
+   (k) per-method lemmas `A64WfAll.W (method args)`; code_small under the size_guard of x86-64. *)
+From SCC Require Import Sem.WfGuard64 Proof.SizeA64Fine Proof.A64WfAll Proof.A64WfProg Proof.A64WfCor Proof.A64HSimExample Proof.A64HSimExampleW Proof.AxHeapExample.
+
+Theorem C14_a64_compile_asm_wf :
+  forall (p : prog) (lc : N) (cs : list A64.acode) (n : nat) (lc' : N),
+    labels_guard p = true -> lin_check_prog p = true ->
+    plain_names p = true -> plain_types p = true -> imm_guard_a64 p = true -> reach_guard_a64 p = true ->
+    A64.a64_compile p lc = Ok (cs, n, lc') -> A64Wf.asm_wf cs = None.
+Proof. exact a64_compile_asm_wf. Qed.
+Print Assumptions C14_a64_compile_asm_wf.
+
+Theorem C14_a64_compile_code_small :
+  forall (p : prog) (lc : N) (cs : list A64.acode) (n : nat) (lc' : N),
+    lin_check_prog p = true -> size_guard p = true ->
+    A64.a64_compile p lc = Ok (cs, n, lc') -> A64SimAddr.code_small cs = true.
+Proof. exact a64_compile_code_small. Qed.
+Print Assumptions C14_a64_compile_code_small.
+Theorem C14_a64_compile_code_small_reach :
+  forall (p : prog) (lc : N) (cs : list A64.acode) (n : nat) (lc' : N),
+    lin_check_prog p = true -> reach_guard_a64 p = true ->
+    A64.a64_compile p lc = Ok (cs, n, lc') -> A64SimAddr.code_small cs = true.
+Proof. exact a64_compile_code_small_reach. Qed.
+Print Assumptions C14_a64_compile_code_small_reach.
+(* the bound of the reach guard: a two-weight refinement of the size theorem of C19 (14 instructions per simple unit,
+   74 per unit of a memory operation), never worse than it *)
+Theorem C14_a64_compile_fine_size :
+  forall (p : prog) (lc : N) (r : list A64.acode) (n : nat) (lc' : N),
+    SizeWf.sub_wf_prog p = true -> A64.a64_compile p lc = Ok (r, n, lc') -> (AxSize.len r <= a64_fine_bound p)%N.
+Proof. exact a64_compile_fine_size. Qed.
+Print Assumptions C14_a64_compile_fine_size.
+Theorem C14_a64_fine_bound_le :
+  forall ds : list def, (cg_fine_defs A64_K0 A64_KM ds <= A64_KM * AxSize.cg_bound_defs ds)%N.
+Proof. exact (cg_fine_defs_le A64_K0 A64_KM ltac:(vm_compute; discriminate)). Qed.
+Print Assumptions C14_a64_fine_bound_le.
+
+(* the back-end methods, for all arguments the generic code generator can hand over *)
+Theorem C14_a64_arith_wf :
+  forall (o : binop) (t s1 s2 : A64.atemp),
+    A64WfAll.temp_enc t -> A64WfAll.temp_enc s1 -> A64WfAll.temp_enc s2 -> A64WfAll.W (A64.a_arith o t s1 s2).
+Proof. exact A64WfAll.W_arith. Qed.
+Print Assumptions C14_a64_arith_wf.
+Theorem C14_a64_load_immediate_wf :
+  forall (t : A64.atemp) (i : Z), A64WfAll.temp_enc t -> A64WfAll.W (A64.a_load_immediate t i).
+Proof. exact A64WfAll.W_load_immediate. Qed.
+Print Assumptions C14_a64_load_immediate_wf.
+Theorem C14_a64_table_jump_wf :
+  forall (t : A64.atemp) (k : N),
+    A64WfAll.temp_enc t -> (k < A64_XTORS_MAX)%N -> A64WfAll.W (A64.a_add_and_jump t (A64.jump_length k)).
+Proof. exact A64WfAll.W_add_and_jump. Qed.
+Print Assumptions C14_a64_table_jump_wf.
+Theorem C14_a64_print_wf :
+  forall (nl : bool) (s : A64.atemp) (c : ctx), A64WfAll.temp_enc s -> A64WfAll.W (A64.a_print nl s c).
+Proof. exact A64WfAll.W_print. Qed.
+Print Assumptions C14_a64_print_wf.
+Theorem C14_a64_erase_wf :
+  forall (t : A64.atemp) (lc : N), A64WfAll.temp_enc t -> A64WfAll.W (fst (A64.a_erase_block t lc)).
+Proof. exact A64WfAll.W_erase. Qed.
+Print Assumptions C14_a64_erase_wf.
+Theorem C14_a64_share_wf :
+  forall (t : A64.atemp) (n lc : N),
+    A64WfAll.temp_enc t -> (n < A64_SUBST_MAX)%N -> A64WfAll.W (fst (A64.a_share_block_n t n lc)).
+Proof. exact A64WfAll.W_share. Qed.
+Print Assumptions C14_a64_share_wf.
+Theorem C14_a64_store_wf :
+  forall (to_store remaining : ctx) (lc : N) (c : list A64.acode) (lc' : N),
+    A64.a_store to_store remaining lc = Ok (c, lc') -> A64WfAll.W c.
+Proof. exact A64WfAll.W_a_store. Qed.
+Print Assumptions C14_a64_store_wf.
+Theorem C14_a64_load_wf :
+  forall (to_load existing : ctx) (lc : N) (c : list A64.acode) (lc' : N),
+    A64.a_load to_load existing lc = Ok (c, lc') -> A64WfAll.W c.
+Proof. exact A64WfAll.W_a_load. Qed.
+Print Assumptions C14_a64_load_wf.
+Theorem C14_a64_prologue_epilogue_wf : (forall n s, A64.setup n = Ok s -> A64WfAll.W s) /\ A64WfAll.W A64.cleanup.
+Proof. exact (conj A64WfAll.W_setup A64WfAll.W_cleanup). Qed.
+Print Assumptions C14_a64_prologue_epilogue_wf.
+(* the spill slots and field offsets are encodable scaled offsets *)
+Theorem C14_a64_offsets_encodable :
+  (forall p : N, N.ltb p A64.SPILL_NUM = true -> A64Wf.uoff8 (A64.stack_offset p) = true) /\
+  (forall (n : tnum) (o : N), N.leb o A64.FIELDS_PER_BLOCK = true -> A64Wf.uoff8 (A64.field_offset n o) = true).
+Proof. exact (conj A64WfAll.stack_offset_ok A64WfAll.field_offset_ok). Qed.
+Print Assumptions C14_a64_offsets_encodable.
+(* what W gives for a body: the four facts asm_wf asks of the instructions *)
+Theorem C14_a64_body_predicate :
+  forall body, A64WfAll.W body ->
+    (forall l, In l (flat_map A64Wf.referenced body) -> A64Wf.is_hash_label l = false) /\
+    (forall l, In l (A64Wf.calls body) -> l = "print_i64"%string \/ l = "println_i64"%string) /\
+    A64Wf.globals body = [] /\ (forall c, In c body -> A64Wf.instr_wf c = true).
+Proof. exact A64WfProg.W_parts. Qed.
+Print Assumptions C14_a64_body_predicate.
+
+(* the hypotheses are satisfiable: the linearized stage outputs of the five example programs of C01 and the two heap
+   examples of C07 (lists, a five-field record in two blocks, closures; the second one with spill slots) *)
+Theorem C14_a64_compile_asm_wf_nonvacuous :
+  wf_guard_a64 (lin_of ex_calls) = true /\ wf_guard_a64 (lin_of ex_shared) = true /\
+  wf_guard_a64 (lin_of ex_data) = true /\ wf_guard_a64 (lin_of ex_labels) = true /\
+  wf_guard_a64 (lin_of ex_codata) = true /\ wf_guard_a64 hx_lin = true /\ wf_guard_a64 hxw_lin = true.
+Proof. exact wf_guard_a64_examples. Qed.
+Print Assumptions C14_a64_compile_asm_wf_nonvacuous.
+
+(* the xtor bound cannot be dropped: a type with 1026 destructors and an invoke of the last one satisfy every other
+   hypothesis (and the imm guard with 1026 for 1024); the code contains `ADD X5, X5, #4100` *)
+Theorem C14_a64_compile_asm_wf_xtors_needed :
+  let p := wide_type_prog 1026 in
+  labels_guard p = true /\ lin_check_prog p = true /\ plain_names p = true /\ plain_types p = true /\
+  imm_guardP 1026 any_lit p = true /\ imm_guard_a64 p = false /\ reach_guard_a64 p = true /\
+  exists cs n lc', A64.a64_compile p 0 = Ok (cs, n, lc') /\
+    A64Wf.asm_wf cs = Some "operand not encodable in its instruction form"%string /\
+    In (A64.ADDI (A64.X 5) (A64.X 5) 4100) cs.
+Proof. exact asm_wf_xtors_needed. Qed.
+Print Assumptions C14_a64_compile_asm_wf_xtors_needed.
+
+(* ======================= round 4: asm_wf and code_small as THEOREMS for RISC-V =======================
+   PROVED now (Sem/WfGuard64.v, Proof/RVWfAll.v, Proof/RVWfCor.v):
+   (l) EVERY instruction the RISC-V code generator emits passes the checker Sem/RVWf.asm_wf that the run-time check
+       applies to the real output: labels (with the routine's `cleanup`) defined once, every referenced label defined,
+       registers x0..x31, ADDI / JALR / LW / SW with a 12-bit signed immediate (field offsets 16..72, reference-count
+       increments, the table dispatch), LI with a 64-bit value.  Hypotheses, all boolean on the PROGRAM: labels_guard,
+       lin_check_prog (gives calls_guard), imm_guard_rv (literals 64-bit; a type declares at most 512 xtors:
+       `ADDI X1, Xt, 4k`).  The xtor bound is a REAL limit (finding):
+       C14_rv_compile_asm_wf_xtors_needed and docs/C14.md.
+   (m) code_small under the size_guard of x86-64. *)
+From SCC Require Import Proof.RVWfAll Proof.RVWfCor Proof.RVHSimExample.
+
+Theorem C14_rv_compile_asm_wf :
+  forall (p : prog) (lc : N) (cs : list RV.rcode) (n : nat) (lc' : N),
+    labels_guard p = true -> lin_check_prog p = true -> imm_guard_rv p = true ->
+    RV.rv_compile p lc = Ok (cs, n, lc') -> RVWf.asm_wf cs = None.
+Proof. exact rv_compile_asm_wf. Qed.
+Print Assumptions C14_rv_compile_asm_wf.
+
+Theorem C14_rv_compile_code_small :
+  forall (p : prog) (lc : N) (cs : list RV.rcode) (n : nat) (lc' : N),
+    lin_check_prog p = true -> size_guard p = true ->
+    RV.rv_compile p lc = Ok (cs, n, lc') -> RVSimAddr.code_small cs = true.
+Proof. exact rv_compile_code_small. Qed.
+Print Assumptions C14_rv_compile_code_small.
+
+(* the back-end methods, for all arguments the generic code generator can hand over *)
+Theorem C14_rv_table_jump_wf :
+  forall (t : RV.reg) (k : N), RVWfAll.reg_enc t -> (k < RV_XTORS_MAX)%N -> RVWfAll.W (RV.r_add_and_jump t (RV.jump_length k)).
+Proof. exact RVWfAll.W_add_and_jump. Qed.
+Print Assumptions C14_rv_table_jump_wf.
+Theorem C14_rv_load_immediate_wf :
+  forall (t : RV.reg) (i : Z), RVWfAll.reg_enc t -> lit64 i = true -> RVWfAll.W (RV.r_load_immediate t i).
+Proof. exact RVWfAll.W_load_immediate. Qed.
+Print Assumptions C14_rv_load_immediate_wf.
+Theorem C14_rv_erase_wf : forall (t : RV.reg) (lc : N), RVWfAll.reg_enc t -> RVWfAll.W (fst (RV.r_erase_block t lc)).
+Proof. exact RVWfAll.W_erase. Qed.
+Print Assumptions C14_rv_erase_wf.
+Theorem C14_rv_share_wf :
+  forall (t : RV.reg) (n lc : N), RVWfAll.reg_enc t -> (n < RV_SUBST_MAX)%N -> RVWfAll.W (fst (RV.r_share_block_n t n lc)).
+Proof. exact RVWfAll.W_share. Qed.
+Print Assumptions C14_rv_share_wf.
+Theorem C14_rv_store_wf :
+  forall (to_store remaining : ctx) (lc : N) (c : list RV.rcode) (lc' : N),
+    RV.r_store to_store remaining lc = Ok (c, lc') -> RVWfAll.W c.
+Proof. exact RVWfAll.W_r_store. Qed.
+Print Assumptions C14_rv_store_wf.
+Theorem C14_rv_load_wf :
+  forall (to_load existing : ctx) (lc : N) (c : list RV.rcode) (lc' : N),
+    RV.r_load to_load existing lc = Ok (c, lc') -> RVWfAll.W c.
+Proof. exact RVWfAll.W_r_load. Qed.
+Print Assumptions C14_rv_load_wf.
+
+(* the hypotheses are satisfiable *)
+Theorem C14_rv_compile_asm_wf_nonvacuous :
+  wf_guard_rv rh_lin = true /\
+  wf_guard_rv (lin_of ex_calls) = true /\ wf_guard_rv (lin_of ex_shared) = true /\
+  wf_guard_rv (lin_of ex_data) = true /\ wf_guard_rv (lin_of ex_labels) = true /\
+  wf_guard_rv (lin_of ex_codata) = true.
+Proof. exact wf_guard_rv_examples. Qed.
+Print Assumptions C14_rv_compile_asm_wf_nonvacuous.
+
+(* the xtor bound cannot be dropped: 514 destructors, invoke of the last one: `ADDI X1, X5, 2052` *)
+Theorem C14_rv_compile_asm_wf_xtors_needed :
+  let p := RVWfCor.wide_type_prog 514 in
+  labels_guard p = true /\ lin_check_prog p = true /\
+  imm_guardP 514 lit64 p = true /\ imm_guard_rv p = false /\
+  exists cs n lc', RV.rv_compile p 0 = Ok (cs, n, lc') /\
+    RVWf.asm_wf cs = Some "operand not encodable in its instruction form"%string /\
+    In (RV.ADDI RV.TEMP 5%N 2052) cs.
+Proof. exact RVWfCor.asm_wf_xtors_needed. Qed.
+Print Assumptions C14_rv_compile_asm_wf_xtors_needed.
